@@ -73,10 +73,48 @@ enum Input {
     /// a = the line after the match, b = the line before it, p = three lines later (passthru),
     /// m = the matching line itself
     Ctx(u64, char),
+    /// directed: lines without `x` up to `total` bytes; ONE NUL at offset `nul` (a window boundary
+    /// -2..+1: the 64 KiB sniff window of the slice strategies, or a fill boundary of a small roll
+    /// buffer); if `delivered` the line holding the NUL also holds an `x` (it matches pattern `x`),
+    /// else no line before or at the NUL matches; `later` puts a matching line well after it
+    Bnd { seed: u64, total: usize, nul: usize, delivered: bool, later: bool },
+}
+
+fn materialise_bnd(seed: u64, total: usize, nul: usize, delivered: bool, later: bool) -> Vec<u8> {
+    let mut rng = Rng::new(seed);
+    let mut out: Vec<u8> = vec![];
+    while out.len() < total {
+        for _ in 0..rng.range(1, 50) {
+            out.push(*rng.pick(b"aab  "));
+        }
+        out.push(b'\n');
+    }
+    let nul = nul.min(out.len() - 1);
+    out[nul] = 0;
+    if delivered {
+        // an `x` in the same line (before the NUL if there is room, else after it)
+        let ls = out[..nul].iter().rposition(|&b| b == b'\n').map_or(0, |i| i + 1);
+        let le = out[nul..].iter().position(|&b| b == b'\n').map_or(out.len(), |i| nul + i);
+        if ls < nul {
+            out[ls] = b'x';
+        } else if nul + 1 < le {
+            out[nul + 1] = b'x';
+        }
+    }
+    if later {
+        let from = (nul + 200).min(out.len());
+        if let Some(i) = out[from..].iter().position(|&b| b == b'\n') {
+            if from + i + 2 < out.len() && out[from + i + 1] != b'\n' {
+                out[from + i + 1] = b'x';
+            }
+        }
+    }
+    out
 }
 
 fn materialise(i: &Input) -> Vec<u8> {
     match i {
+        Input::Bnd { seed, total, nul, delivered, later } => materialise_bnd(*seed, *total, *nul, *delivered, *later),
         Input::Ctx(seed, kind) => materialise_ctx(*seed, *kind),
         Input::Hex(v) => v.clone(),
         Input::Gen(seed, lines, nul) => {
@@ -129,6 +167,9 @@ fn materialise_ctx(seed: u64, kind: char) -> Vec<u8> {
 
 fn input_str(i: &Input) -> String {
     match i {
+        Input::Bnd { seed, total, nul, delivered, later } => {
+            format!("bnd:{}:{}:{}:{}:{}", seed, total, nul, *delivered as u8, *later as u8)
+        }
         Input::Ctx(s, k) => format!("ctx:{}:{}", s, k),
         Input::Hex(v) => hex(v),
         Input::Gen(s, l, n) => format!("gen:{}:{}:{}", s, l, n),
@@ -136,6 +177,19 @@ fn input_str(i: &Input) -> String {
 }
 
 fn parse_input(s: &str) -> Option<Input> {
+    if let Some(r) = s.strip_prefix("bnd:") {
+        let f: Vec<&str> = r.split(':').collect();
+        if f.len() != 5 {
+            return None;
+        }
+        return Some(Input::Bnd {
+            seed: f[0].parse().ok()?,
+            total: f[1].parse().ok()?,
+            nul: f[2].parse().ok()?,
+            delivered: f[3] == "1",
+            later: f[4] == "1",
+        });
+    }
     if let Some(r) = s.strip_prefix("ctx:") {
         let f: Vec<&str> = r.split(':').collect();
         if f.len() != 2 {
@@ -154,13 +208,35 @@ fn parse_input(s: &str) -> Option<Input> {
     }
 }
 
-fn matcher(pat: &str, det: Det) -> Option<RegexMatcher> {
+/// How the searcher is set up beyond the detection mode.
+#[derive(Clone, Copy, Debug, Default, PartialEq, Eq)]
+struct Opts {
+    /// 0: no multi_line; 1: `multi_line(true)` with a matcher built as `rg -U` builds it (no line
+    /// terminator on the matcher) for a pattern that cannot match `\n` -- the searcher must fall back
+    /// to the line-by-line strategies; 2: a pattern that can match `\n` (really `MultiLine`)
+    ml: u8,
+    /// the detection mode is set with `Searcher::set_binary_detection` AFTER `build()` (as
+    /// `core/search.rs` does for every file) instead of on the builder
+    late: bool,
+}
+
+/// patterns that can match the terminator (only these make `multi_line(true)` a real multi-line search)
+const ML_PATTERNS: [&str; 4] = ["x\\n?", "b\\s*x", "x[^a]*", "a\\nb"];
+
+fn matcher_o(pat: &str, det: Det, o: Opts) -> Option<RegexMatcher> {
     let mut b = RegexMatcherBuilder::new();
-    b.multi_line(true).line_terminator(Some(b'\n'));
+    b.multi_line(true);
+    if o.ml == 0 {
+        b.line_terminator(Some(b'\n'));
+    }
     if det != Det::None {
         b.ban_byte(Some(0));
     }
     b.build(pat).ok()
+}
+
+fn matcher(pat: &str, det: Det) -> Option<RegexMatcher> {
+    matcher_o(pat, det, Opts::default())
 }
 
 fn builder(det: Det, after: usize, before: usize, passthru: bool) -> SearcherBuilder {
@@ -172,6 +248,27 @@ fn builder(det: Det, after: usize, before: usize, passthru: bool) -> SearcherBui
         .passthru(passthru)
         .binary_detection(det.lib());
     b
+}
+
+/// the searcher of one run: builder settings, then (if `late`) the detection mode the way rg sets it
+fn build_searcher(det: Det, after: usize, before: usize, passthru: bool, o: Opts, strat: &Strat) -> grep_searcher::Searcher {
+    let mut b = builder(if o.late { Det::None } else { det }, after, before, passthru);
+    b.multi_line(o.ml > 0);
+    match strat {
+        Strat::Reader { cap: Some(c), .. } => {
+            b.verif_buffer_capacity(*c);
+        }
+        Strat::Path { mmap: true } => {
+            // SAFETY: private scratch file, not modified while mapped
+            b.memory_map(unsafe { MmapChoice::auto() });
+        }
+        _ => {}
+    }
+    let mut s = b.build();
+    if o.late {
+        s.set_binary_detection(det.lib());
+    }
+    s
 }
 
 /// events (RecSink text) -> S-expression list for the model; `None` if the run ended with an error
@@ -209,7 +306,21 @@ fn lib_run(
     strat: &Strat,
     file: Option<&Path>,
 ) -> LibRun {
-    lib_run_seq(m, det, after, before, passthru, &[(inp, file, PATH)], strat).pop().unwrap()
+    lib_run_seq(m, det, after, before, passthru, &[(inp, file, PATH)], strat, Opts::default()).pop().unwrap()
+}
+
+fn lib_run_o(
+    m: &RegexMatcher,
+    det: Det,
+    after: usize,
+    before: usize,
+    passthru: bool,
+    inp: &[u8],
+    strat: &Strat,
+    file: Option<&Path>,
+    o: Opts,
+) -> LibRun {
+    lib_run_seq(m, det, after, before, passthru, &[(inp, file, PATH)], strat, o).pop().unwrap()
 }
 
 /// Several inputs searched IN SEQUENCE by one `Searcher` (one worker of rg: the roll buffer and the
@@ -222,21 +333,9 @@ fn lib_run_seq(
     passthru: bool,
     inputs: &[(&[u8], Option<&Path>, &str)],
     strat: &Strat,
+    o: Opts,
 ) -> Vec<LibRun> {
-    let mk = || {
-        let mut b = builder(det, after, before, passthru);
-        match strat {
-            Strat::Reader { cap: Some(c), .. } => {
-                b.verif_buffer_capacity(*c);
-            }
-            Strat::Path { mmap: true } => {
-                // SAFETY: private scratch file, not modified while mapped
-                b.memory_map(unsafe { MmapChoice::auto() });
-            }
-            _ => {}
-        }
-        b.build()
-    };
+    let mk = || build_searcher(det, after, before, passthru, o, strat);
     let mut s1 = mk();
     let mut s2 = mk();
     let mut printer = StandardBuilder::new().build_no_color(vec![]);
@@ -274,9 +373,42 @@ fn ev_bytes(e: &str) -> Option<Vec<u8>> {
     }
 }
 
-/// The contract of the searcher that the theorems `C14_stdout` / decision tables assume.
+/// The initial sniff of the slice strategies (`SliceByLine::run`, `MultiLine::run`) covers
+/// `[0, min(len, DEFAULT_BUFFER_CAPACITY))` (source-anchored in checks/C14.json).
+const SNIFF_WINDOW: usize = 64 * (1 << 10);
+
+/// The contract of the searcher that the theorems `C14_stdout` / decision tables assume, and its
+/// completeness half: WHEN `binary_data` must be reported (the sink of these runs never stops).
+/// Reader strategy: the roll buffer sees every byte, so the first NUL is always reported.
+/// Slice strategies: a NUL inside the sniff window is reported before anything else.
 fn check_contract(det: Det, reader: bool, inp: &[u8], ev: &[String]) -> Option<String> {
     let first_nul = inp.iter().position(|&b| b == 0);
+    let errored = ev.last().map_or(false, |e| e.starts_with("err:"));
+    if det != Det::None && !errored {
+        let reported: Option<usize> = ev.iter().find_map(|e| e.strip_prefix("bin ").and_then(|r| r.parse().ok()));
+        if let Some(n) = first_nul {
+            if reader && reported != Some(n) {
+                return Some(format!(
+                    "reader strategy: the input has a NUL at {} but binary_data was {}",
+                    n,
+                    reported.map_or("never reported".to_string(), |o| format!("reported at {}", o))
+                ));
+            }
+            if !reader && n < SNIFF_WINDOW.min(inp.len()) {
+                if reported != Some(n) {
+                    return Some(format!(
+                        "slice strategy: NUL at {} inside the {}-byte sniff window but binary_data was {}",
+                        n,
+                        SNIFF_WINDOW,
+                        reported.map_or("never reported".to_string(), |o| format!("reported at {}", o))
+                    ));
+                }
+                if ev.get(1).map_or(true, |e| !e.starts_with("bin ")) {
+                    return Some("slice strategy: something was delivered before the sniffed binary_data".into());
+                }
+            }
+        }
+    }
     let mut bin_seen: Option<usize> = None;
     for (i, e) in ev.iter().enumerate() {
         if let Some(r) = e.strip_prefix("bin ") {
@@ -385,6 +517,7 @@ struct Bs {
     passthru: bool,
     input: Input,
     strat: Strat,
+    o: Opts,
 }
 
 fn strat_str(s: &Strat) -> String {
@@ -413,14 +546,16 @@ fn parse_strat(s: &str) -> Option<Strat> {
 impl Bs {
     fn case_str(&self) -> String {
         format!(
-            "bs pat={} det={} A={} B={} pt={} inp={} strat={}",
+            "bs pat={} det={} A={} B={} pt={} inp={} strat={} ml={} late={}",
             hex(self.pat.as_bytes()),
             self.det.s(),
             self.after,
             self.before,
             self.passthru as u8,
             input_str(&self.input),
-            strat_str(&self.strat)
+            strat_str(&self.strat),
+            self.o.ml,
+            self.o.late as u8
         )
     }
     fn parse(parts: &[&str]) -> Option<Bs> {
@@ -433,6 +568,10 @@ impl Bs {
             passthru: get("pt")? == "1",
             input: parse_input(get("inp")?)?,
             strat: parse_strat(get("strat")?)?,
+            o: Opts {
+                ml: get("ml").and_then(|v| v.parse().ok()).unwrap_or(0),
+                late: get("late").map_or(false, |v| v == "1"),
+            },
         })
     }
 }
@@ -447,22 +586,49 @@ fn scratch_file(scratch: &Path, sub: &str, inp: &[u8]) -> PathBuf {
 
 fn run_bs(case: &str, c: &Bs, args: &Args, drv: &mut Driver, rep: &mut Report) {
     rep.eval();
-    let m = match matcher(&c.pat, c.det) {
+    let m = match matcher_o(&c.pat, c.det, c.o) {
         Some(m) => m,
         None => {
             rep.branch("bs:pattern-rejected");
             return;
         }
     };
+    // multi_line requested: which strategy that means is decided here by the rule, not by the code
+    {
+        use grep_matcher::Matcher;
+        let downgrades = m.line_terminator() == Some(LineTerminator::byte(b'\n'))
+            || m.non_matching_bytes().map_or(false, |nm| nm.contains(b'\n'));
+        if (c.o.ml == 1 && !downgrades) || (c.o.ml == 2 && downgrades) {
+            rep.branch("bs:ml-kind-mismatch(skipped)");
+            return;
+        }
+    }
     let inp = materialise(&c.input);
     let file = if let Strat::Path { .. } = c.strat { Some(scratch_file(&args.scratch, "bs", &inp)) } else { None };
-    let run = lib_run(&m, c.det, c.after, c.before, c.passthru, &inp, &c.strat, file.as_deref());
-    let reader = match c.strat {
-        Strat::Reader { .. } => true,
-        Strat::Path { mmap } => !mmap || inp.is_empty(),
-        Strat::Slice => false,
-    };
+    let run = lib_run_o(&m, c.det, c.after, c.before, c.passthru, &inp, &c.strat, file.as_deref(), c.o);
+    // a really multi-line search reads everything onto the heap and searches it as a slice
+    let reader = c.o.ml != 2
+        && match c.strat {
+            Strat::Reader { .. } => true,
+            Strat::Path { mmap } => !mmap || inp.is_empty(),
+            Strat::Slice => false,
+        };
     rep.branch(&format!("bs:{}:{}", c.det.s(), if reader { "reader" } else { "slice" }));
+    match c.o.ml {
+        1 => rep.branch(if reader { "bs:ml-downgraded:reader" } else { "bs:ml-downgraded:slice" }),
+        2 => rep.branch("bs:ml-real"),
+        _ => {}
+    }
+    if c.o.late {
+        rep.branch("bs:detection-set-after-build");
+    }
+    if let Input::Bnd { nul, delivered, .. } = &c.input {
+        rep.branch(&format!(
+            "bs:boundary:{}:{}",
+            if *nul + 2 >= SNIFF_WINDOW && *nul <= SNIFF_WINDOW + 1 { "sniff-window" } else { "fill" },
+            if *delivered { "delivered" } else { "not-delivered" }
+        ));
+    }
     let nul_at = inp.iter().position(|&b| b == 0);
     if let Some(n) = nul_at {
         rep.branch(if n == 0 {
@@ -494,7 +660,8 @@ fn run_bs(case: &str, c: &Bs, args: &Args, drv: &mut Driver, rep: &mut Report) {
     // printer vs model
     if let Some(sx) = events_sx(&run.events) {
         let model = drv.ask(&format!("c14.print {} {} {}", c.det.s(), hex(PATH.as_bytes()), sx));
-        if model != hex(&run.printed) {
+        // (the printer model renders one line per event: a really multi-line match is outside it)
+        if c.o.ml != 2 && model != hex(&run.printed) {
             rep.violation(Violation {
                 kind: "impl_vs_model".into(),
                 class: "".into(),
@@ -549,12 +716,14 @@ struct Cli {
     before: usize,
     passthru: bool,
     input: Input,
+    /// `-U` (only with patterns that cannot match a newline: the searcher falls back to line mode)
+    ml: bool,
 }
 
 impl Cli {
     fn case_str(&self) -> String {
         format!(
-            "cli pat={} mode={} ex={} mmap={} A={} B={} pt={} inp={}",
+            "cli pat={} mode={} ex={} mmap={} A={} B={} pt={} inp={} U={}",
             hex(self.pat.as_bytes()),
             self.mode,
             self.explicit as u8,
@@ -562,7 +731,8 @@ impl Cli {
             self.after,
             self.before,
             self.passthru as u8,
-            input_str(&self.input)
+            input_str(&self.input),
+            self.ml as u8
         )
     }
     fn parse(parts: &[&str]) -> Option<Cli> {
@@ -576,6 +746,7 @@ impl Cli {
             before: get("B")?.parse().ok()?,
             passthru: get("pt")? == "1",
             input: parse_input(get("inp")?)?,
+            ml: get("U").map_or(false, |v| v == "1"),
         })
     }
 }
@@ -607,6 +778,9 @@ fn rg_cmd(rg: &Path, cwd: &Path, c: &Cli, count: bool) -> Vec<u8> {
         _ => {}
     }
     cmd.arg(if c.mmap { "--mmap" } else { "--no-mmap" });
+    if c.ml {
+        cmd.arg("-U");
+    }
     cmd.arg("-e").arg(&c.pat);
     cmd.arg(if c.explicit { "d/f" } else { "d" });
     let out = cmd.output().expect("run rg");
@@ -634,7 +808,9 @@ fn run_cli(case: &str, c: &Cli, args: &Args, drv: &mut Driver, rep: &mut Report)
             return;
         }
     };
-    let m = match matcher(&c.pat, det) {
+    // rg sets the detection mode per file AFTER building the searcher; `-U` requests multi_line
+    let o = Opts { ml: c.ml as u8, late: true };
+    let m = match matcher_o(&c.pat, det, o) {
         Some(m) => m,
         None => {
             rep.branch("cli:pattern-rejected");
@@ -647,9 +823,29 @@ fn run_cli(case: &str, c: &Cli, args: &Args, drv: &mut Driver, rep: &mut Report)
         if c.explicit { "explicit" } else { "implicit" },
         if c.mmap { "mmap" } else { "read" }
     ));
+    if c.ml {
+        use grep_matcher::Matcher;
+        let downgrades = m.line_terminator() == Some(LineTerminator::byte(b'\n'))
+            || m.non_matching_bytes().map_or(false, |nm| nm.contains(b'\n'));
+        if !downgrades {
+            // a really multi-line search: matches span lines, outside the printer model
+            rep.branch("cli:-U-real(skipped)");
+            return;
+        }
+        rep.branch(if c.mmap { "cli:-U-downgraded:mmap" } else { "cli:-U-downgraded:read" });
+    }
     // the same strategy at library level gives the event stream
     let strat = Strat::Path { mmap: c.mmap };
-    let run = lib_run(&m, det, c.after, c.before, c.passthru, &inp, &strat, Some(&file));
+    let run = lib_run_o(&m, det, c.after, c.before, c.passthru, &inp, &strat, Some(&file), o);
+    if let Some(d) = check_contract(det, !c.mmap || inp.is_empty(), &inp, &run.events) {
+        rep.violation(Violation {
+            kind: "impl_vs_spec".into(),
+            class: "".into(),
+            tie: "searcher event stream (as rg drives it: set_binary_detection after build, -U) vs the contract assumed by C14_stdout".into(),
+            case: case.to_string(),
+            detail: d,
+        });
+    }
     let stdout = rg_cmd(&rg, &cwd, c, false);
     let sx = match events_sx(&run.events) {
         Some(s) => s,
@@ -817,6 +1013,7 @@ fn run_seq(case: &str, c: &Seq, args: &Args, rep: &mut Report) {
         c.passthru,
         &[(&i1, f1.as_deref(), PATH), (&i2, f2.as_deref(), PATH)],
         &c.strat,
+        Opts::default(),
     );
     let fresh = lib_run(&m, c.det, c.after, c.before, c.passthru, &i2, &c.strat, f2.as_deref());
     rep.branch(&format!("seq:{}", c.det.s()));
@@ -1070,14 +1267,62 @@ fn gen_bs(rng: &mut Rng, big: bool) -> Bs {
         _ => Strat::Reader { cap: Some(*rng.pick(&[1usize, 2, 3, 5, 8, 13, 64])), script: gen_script(rng, len, false) },
     };
     let ctx = rng.chance(1, 3);
+    // multi_line requested (downgraded for these patterns; now and then a pattern that can match `\n`),
+    // detection set after build as rg does
+    let ml: u8 = if big { 0 } else { *rng.pick(&[0u8, 0, 1, 1, 2]) };
+    let pat = if ml == 2 { rng.pick(&ML_PATTERNS).to_string() } else { pat };
+    let passthru = ml != 2 && rng.chance(1, 10);
     Bs {
         pat,
         det,
         after: if ctx { rng.below(3) } else { 0 },
         before: if ctx { rng.below(3) } else { 0 },
-        passthru: rng.chance(1, 10),
+        passthru,
         input,
         strat,
+        o: Opts { ml, late: rng.chance(1, 2) },
+    }
+}
+
+/// One NUL at a window boundary (-2, -1, 0, +1): the 64 KiB sniff window of the slice strategies
+/// (slice, mmap, `MultiLine::run`, and the reader for comparison), or a fill boundary of a small
+/// roll buffer; in a delivered or in a non-delivered line.
+fn gen_bs_bnd(rng: &mut Rng) -> Bs {
+    let delta = rng.below(4); // 0..3 -> -2..+1
+    let sniff = rng.chance(2, 3);
+    let (input, strat) = if sniff {
+        let nul = SNIFF_WINDOW + delta - 2;
+        let strat = match rng.below(5) {
+            0 | 1 => Strat::Slice,
+            2 => Strat::Path { mmap: true },
+            3 => Strat::Path { mmap: false },
+            _ => Strat::Reader { cap: None, script: vec![] },
+        };
+        (
+            Input::Bnd { seed: rng.next() % 100000, total: SNIFF_WINDOW + 3000, nul, delivered: rng.chance(1, 2), later: rng.chance(1, 2) },
+            strat,
+        )
+    } else {
+        let cap = *rng.pick(&[4usize, 8, 16, 64]);
+        let k = rng.range(1, 6);
+        let nul = (k * cap + delta).saturating_sub(2);
+        let total = nul + 300;
+        let len = total + 60;
+        (
+            Input::Bnd { seed: rng.next() % 100000, total, nul, delivered: rng.chance(1, 2), later: rng.chance(1, 2) },
+            Strat::Reader { cap: Some(cap), script: gen_script(rng, len, false) },
+        )
+    };
+    let ml: u8 = if sniff { *rng.pick(&[0u8, 0, 1, 2]) } else { *rng.pick(&[0u8, 1]) };
+    Bs {
+        pat: if ml == 2 { "x\\n?".into() } else { "x".into() },
+        det: *rng.pick(&[Det::Quit, Det::Quit, Det::Convert]),
+        after: rng.below(2),
+        before: rng.below(2),
+        passthru: false,
+        input,
+        strat,
+        o: Opts { ml, late: rng.chance(1, 2) },
     }
 }
 
@@ -1098,6 +1343,7 @@ fn gen_bs_ctx(rng: &mut Rng) -> Bs {
         passthru,
         input: Input::Ctx(rng.next() % 100000, kind),
         strat: if rng.chance(1, 2) { Strat::Slice } else { Strat::Path { mmap: true } },
+        o: Opts { ml: *rng.pick(&[0u8, 0, 1]), late: rng.chance(1, 2) },
     }
 }
 
@@ -1118,6 +1364,28 @@ fn gen_cli_ctx(rng: &mut Rng) -> Cli {
         before,
         passthru,
         input: Input::Ctx(rng.next() % 100000, kind),
+        ml: rng.chance(1, 3),
+    }
+}
+
+/// rg on a file with one NUL at the edge of the 64 KiB sniff window (-2..+1)
+fn gen_cli_bnd(rng: &mut Rng) -> Cli {
+    Cli {
+        pat: "x".into(),
+        mode: rng.pick(&["auto", "auto", "binary"]).to_string(),
+        explicit: rng.chance(1, 3),
+        mmap: rng.chance(2, 3),
+        after: 0,
+        before: 0,
+        passthru: false,
+        input: Input::Bnd {
+            seed: rng.next() % 100000,
+            total: SNIFF_WINDOW + 3000,
+            nul: SNIFF_WINDOW + rng.below(4) - 2,
+            delivered: rng.chance(1, 2),
+            later: true,
+        },
+        ml: rng.chance(1, 3),
     }
 }
 
@@ -1176,6 +1444,7 @@ fn gen_cli(rng: &mut Rng, big: bool) -> Cli {
         before: if ctx { rng.below(3) } else { 0 },
         passthru: rng.chance(1, 12),
         input,
+        ml: rng.chance(1, 3),
     }
 }
 
@@ -1221,7 +1490,10 @@ fn main() {
          with and without mmap x contexts 0..2 / passthru x inputs with NUL at: first byte, last byte, inside a line, \
          first byte of a line, in place of a terminator, several, none, beyond 64 KiB (long inputs). \
          cli: rg binary x implicit (directory argument) / explicit file x default / --binary / --text x --mmap / --no-mmap, \
-         plus -c. Excluded: --null-data (NUL is then the requested line terminator), -U, encodings, preprocessors. \
+         plus -c, plus -U with patterns that cannot match a newline (the searcher falls back to line mode; bs: also patterns \
+         that can, and the detection mode set after build as rg does), plus one NUL at -2..+1 around the 64 KiB sniff window \
+         and around the fill boundaries of small roll buffers, in delivered and non-delivered lines. \
+         Excluded: --null-data (NUL is then the requested line terminator), encodings, preprocessors. \
          Non-trivial (bs, cli) = binary data was detected and at least one line matched. Distinct by case text.",
     );
     quiet_panics();
@@ -1250,9 +1522,11 @@ fn main() {
                     gen_lb_case(&mut rng, bin, i % 40 == 0).case_str()
                 }
                 1 if i % 20 == 1 => gen_bs_ctx(&mut rng).case_str(),
+                1 if i % 20 == 5 || i % 20 == 13 => gen_bs_bnd(&mut rng).case_str(),
                 2 if i % 10 == 2 => gen_seq(&mut rng).case_str(),
                 1 | 2 => gen_bs(&mut rng, i % 50 == 1).case_str(),
                 _ if i % 40 == 7 => gen_cli_ctx(&mut rng).case_str(),
+                _ if i % 40 == 27 => gen_cli_bnd(&mut rng).case_str(),
                 _ if i % 8 == 3 => gen_cli2(&mut rng).case_str(),
                 _ => gen_cli(&mut rng, i % 60 == 3).case_str(),
             };
